@@ -78,6 +78,7 @@ FAMILIES = {
     "C35": ["periodic"],
     "C37": ["srcfac"],
     "C10": ["seqcomp"],
+    "C24": ["mcast"],
     "C40": ["op", "resrc"],
     "C08": ["opacity"],
     "C05": ["op"],
@@ -112,6 +113,8 @@ def units_for(prop, tier):
         us += forward_units(prop)
     if "class" in fams:
         us += class_units(prop)
+    if "mcast" in fams:
+        us.append({"runner": "mcast", "prop": prop, "id": "reactivex/observable/connectableobservable.py::multicasting"})
     if "seqcomp" in fams:
         us.append({"runner": "seqcomp", "prop": prop, "id": "reactivex/observable/concat.py::sequential-composition"})
     if "resrc" in fams:
